@@ -77,6 +77,17 @@
 // attributes and certificates stay DER as RFC 5652 requires); EContentChunk
 // additionally splits eContent into a constructed OCTET STRING.
 //
+// # Scenarios
+//
+//	Scenario{Name, Class "genuine"|"forgery"|"probe", Note, KnownDeviation, SOD, DGs, CardSec, Trust, KeySpec, MasterList, MLExpectCerts}
+//	Scenarios(seed, ks) -> every recipe for one key spec;  BaseScenarios(seed, ks) -> genuine base + elementary forgeries
+//	GenuineScenario(seed, ks, Variant{SIDSKI, LDSv1, Indefinite, NoSigningTime, ExtraCertsBefore, ExtraCertsAfter,
+//	    CrossSignedFirst, CrossSignedSecond, RDNOrderPermuted, NameStringType, SigningTimeAtNotBefore, SigningTimeAtNotAfter, WithCardSecurity})
+//	KnownDeviations (descriptions of Scenario.KnownDeviation), ScenarioSigningTime, TestSecurityInfos()
+//
+// Scenarios are deterministic functions of (seed, key spec). Pooled RSA keys
+// depend only on (modulus size, slot) and are the same for every seed.
+//
 // # Facts
 //
 //	ComputeFacts(sodOrCms, dgs, trustStore) -> (*Facts, []AnchorFacts)
